@@ -105,6 +105,19 @@ func c01Paths(r *rand.Rand, n int) []c01Path {
 	add("nul", "/../root-other/x.txt\x00")
 	add("nul", "/dir\x00/../../root-other/x.txt")
 	add("nul", "\x00/../root-other")
+	// the virtual prefixes glued to other text (the mask must be a whole path element)
+	for _, pre := range []string{"***DVD***", "***PS3***"} {
+		for _, t := range []string{"root-other", "root-other/game", "root2/dir", "rootx", "secret.txt", "other"} {
+			add("virtual-glued", "/"+pre+"../"+t)
+			add("virtual-glued", "/"+pre+"..//"+t)
+			add("virtual-glued", pre+"../"+t)
+			add("virtual-glued", "/"+pre+"x/../../"+t)
+		}
+		add("virtual-glued", "/"+pre+"..")
+		add("virtual-glued", "/"+pre)
+		add("virtual-glued", "/"+pre+"dir")
+		add("virtual-glued", "/"+pre+"/")
+	}
 	// NUL glued to dot-dot elements (names like "..\x00" are ordinary names for a lexical cleaner)
 	for _, dd := range []string{"..\x00", "\x00..", ".\x00.", "..\x00\x00", "\x00.\x00."} {
 		for _, t := range []string{"root-other/x.txt", "root-other", "root2/dir/a.txt", "secret.txt", "rootx/PS3ISO/x.iso", "root-other/new.bin"} {
